@@ -180,7 +180,7 @@ Proof.
   - apply (gc_refl c G).
   - apply (gc_sym c G).
   - eapply (gc_trans c G); eauto.
-  - apply (gc_eq_r c G). exact H.
+  - apply (gc_eq_r c G). apply (gc_eq_sym c G). exact H.
 Qed.
 
 (* lexicographic comparison of lists: Go's strings.Compare on bytes, and
@@ -209,10 +209,9 @@ Proof.
       * rewrite <- (gc_eq_r c G b d a E2). rewrite E1. reflexivity.
       * rewrite (gc_trans c G a b d E1 E2). reflexivity.
   - induction x as [|a x IH]; intros [|b y] [|d z]; simpl; intros H; try discriminate; try reflexivity.
-    + destruct (c a b); discriminate.
-    + destruct (c a b) eqn:E1; try discriminate.
-      rewrite (gc_eq_l c G a b d E1). destruct (c b d); try reflexivity.
-      apply IH. exact H.
+    destruct (c a b) eqn:E1; try discriminate.
+    rewrite (gc_eq_l c G a b d E1). destruct (c b d); try reflexivity.
+    apply IH. exact H.
 Qed.
 
 Lemma list_cmp_eq {A} (c : A -> A -> comparison) :
